@@ -1,4 +1,5 @@
 import BycycleModel.ObjMachine
+import BycycleModel.GroupMachine
 /-!
 # Symbolic instance of the object machine, used by the driver (C14 correspondence)
 
@@ -28,5 +29,38 @@ def trace (o : Obj Nat Term) : List (Op Nat Term × Bool) → List (Out × Obj N
   | (op, flag) :: rest =>
     let r := step (apiWith flag) o op
     (r.2, r.1) :: trace r.1 rest
+
+end Bycycle.Obj
+
+namespace Bycycle.Obj
+
+/-- the group machine on provenance terms: `compute_features_2d(axis=0)` yields, per signal, the term of the single-signal analysis
+(C11); `flag` = the analysis succeeded. -/
+def gcfWith (flag : Bool) : Settings → List Nat → Except Err (List Term) :=
+  fun st xs => if flag then .ok (xs.map fun x => .cf st x) else .error .other
+
+/-- one group operation with the success flags of the API calls it makes (for `edges`: one flag per model, consumed in order; a model
+whose flag is false raises and stops the loop, exactly as `edgesLoop` does with a failing `rc`). -/
+def gtraceStep (g : GObj Nat Term) (op : GOp Nat Term) (flags : List Bool) : GObj Nat Term × Out :=
+  match op with
+  | .edges r =>
+    -- run the loop model by model with each model's own flag
+    let rec go : List (Obj Nat Term) → List Term → List Bool → List (Obj Nat Term) × List Term × Bool
+      | [], ds, _ => ([], ds, true)
+      | m :: ms, [], _ => (m :: ms, [], true)
+      | m :: ms, d :: ds, fl =>
+        let res := step (apiWith (fl.headD true)) m (.edges r)
+        match res.2 with
+        | .raised => (m :: ms, d :: ds, false)
+        | _ => let rest := go ms ds fl.tail; (res.1 :: rest.1, (res.1.df.getD d) :: rest.2.1, rest.2.2)
+    let res := go g.models g.dfs flags
+    ({ g with models := res.1, dfs := res.2.1 }, if res.2.2 then .done else .raised)
+  | op => gstep (apiWith (flags.headD true)) (gcfWith (flags.headD true)) g op
+
+def gtrace (g : GObj Nat Term) : List (GOp Nat Term × List Bool) → List (Out × GObj Nat Term)
+  | [] => []
+  | (op, flags) :: rest =>
+    let r := gtraceStep g op flags
+    (r.2, r.1) :: gtrace r.1 rest
 
 end Bycycle.Obj
